@@ -102,12 +102,36 @@ static void zmInv(word b[], const word a[], const qr_o* r, void* stack)
 {
 	ASSERT(zmIsOperable(r));
 	ASSERT(zmIsIn(a, r));
-	zzInvMod(b, a, r->mod, r->n, stack);
+	// нечетный модуль?
+	if (zzIsOdd(r->mod, r->n))
+		zzInvMod(b, a, r->mod, r->n, stack);
+	// четный модуль: zzInvMod() не применима, расширенный алгоритм Евклида
+	else
+	{
+		word* d = (word*)stack;
+		word* da = d + r->n;
+		word* db = da + r->n;
+		stack = db + r->n;
+		if (wwIsZero(a, r->n))
+		{
+			wwSetZero(b, r->n);
+			return;
+		}
+		// da * a - db * mod == d == \gcd(a, mod), da <= mod
+		zzExGCD(d, da, db, a, r->n, r->mod, r->n, stack);
+		// a обратим? b <- da : b <- 0
+		if (wwIsW(d, r->n, 1))
+			wwCopy(b, da, r->n);
+		else
+			wwSetZero(b, r->n);
+	}
 }
 
 static size_t zmInv_deep(size_t n)
 {
-	return zzInvMod_deep(n);
+	return utilMax(2,
+		zzInvMod_deep(n),
+		O_OF_W(3 * n) + zzExGCD_deep(n, n));
 }
 
 static void zmDiv(word b[], const word divident[], const word a[],
@@ -116,12 +140,27 @@ static void zmDiv(word b[], const word divident[], const word a[],
 	ASSERT(zmIsOperable(r));
 	ASSERT(zmIsIn(divident, r));
 	ASSERT(zmIsIn(a, r));
-	zzDivMod(b, divident, a, r->mod, r->n, stack);
+	// нечетный модуль?
+	if (zzIsOdd(r->mod, r->n))
+		zzDivMod(b, divident, a, r->mod, r->n, stack);
+	// четный модуль: b <- divident * a^{-1}
+	else
+	{
+		word* c = (word*)stack;
+		stack = c + r->n;
+		zmInv(c, a, r, stack);
+		zzMulMod(b, divident, c, r->mod, r->n, stack);
+	}
 }
 
 static size_t zmDiv_deep(size_t n)
 {
-	return zzDivMod_deep(n);
+	return utilMax(2,
+		zzDivMod_deep(n),
+		O_OF_W(n) + 
+			utilMax(2,
+				zmInv_deep(n),
+				zzMulMod_deep(n)));
 }
 
 void zmCreatePlain(qr_o* r, const octet mod[], size_t no, void* stack)
